@@ -258,6 +258,87 @@ Section Congr.
     destruct H as (-> & -> & C & _). repeat split; auto.
   Qed.
 
+  (** one level of ReadObject / ReadArray, for abstract member readers *)
+  Lemma obj_level_congr : forall data (r1 r1' : call -> rres), len data <= maxint ->
+    (forall c, okc data c -> r1 c = r1' c /\ key_of md mUnescape (c_key c) = key_of md mUnescape' (c_key c)) ->
+    match handleObjectValues_m md mObj data (fun calls => match calls with c :: _ => answer (r1 c) | [] => answer None end) [] with
+    | MDone p (Some e) _ => Some (JNull, p, Some e)
+    | MDone p None s =>
+      match collect_obj md mUnescape r1 (rev (s_calls s)) [] with
+      | Some m => match m with
+                  | [] => if first_is_null data then Some (JNull, p, Some EInvalidObject) else Some (JObj m, p, None)
+                  | _ :: _ => Some (JObj m, p, None)
+                  end
+      | None => None
+      end
+    | _ => None
+    end =
+    match handleObjectValues_m md mObj' data (fun calls => match calls with c :: _ => answer (r1' c) | [] => answer None end) [] with
+    | MDone p (Some e) _ => Some (JNull, p, Some e)
+    | MDone p None s =>
+      match collect_obj md mUnescape' r1' (rev (s_calls s)) [] with
+      | Some m => match m with
+                  | [] => if first_is_null data then Some (JNull, p, Some EInvalidObject) else Some (JObj m, p, None)
+                  | _ :: _ => Some (JObj m, p, None)
+                  end
+      | None => None
+      end
+    | _ => None
+    end.
+  Proof.
+    intros data r1 r1' L R1. unfold handleObjectValues_m. rewrite !prun_c_eq.
+    set (h := fun calls : list call => match calls with c :: _ => answer (r1 c) | [] => answer None end).
+    set (h' := fun calls : list call => match calls with c :: _ => answer (r1' c) | [] => answer None end).
+    assert (HE : forall L0, Forall (okc data) L0 -> h L0 = h' L0).
+    { intros [|c L0] F; [reflexivity|]. inversion F; subst. unfold h, h'. rewrite (proj1 (R1 c H1)). reflexivity. }
+    pose proof (handle_congr mObj mObj' SO data h h' L HE) as HC.
+    destruct (prun md mObj data h [] []) as [p e s|k|], (prun md mObj' data h' [] []) as [p' e' s'|k'|];
+      try contradiction; try reflexivity.
+    destruct HC as (-> & -> & C & F). cbn [of_outcome]. destruct e'; [reflexivity|]. rewrite <- C.
+    rewrite (collect_obj_congr r1 r1' (rev (s_calls s)) []); [reflexivity|].
+    intros c IN. apply R1. rewrite Forall_forall in F. apply F. apply in_rev. exact IN.
+  Qed.
+
+  Lemma arr_level_congr : forall data (r1 r1' : call -> rres), len data <= maxint ->
+    (forall c, r1 c = r1' c) ->
+    match handleArrayValues_m md mArr data (fun calls => match calls with c :: _ => answer (r1 c) | [] => answer None end) [] with
+    | MDone p (Some e) _ => Some (JNull, p, Some e)
+    | MDone p None s =>
+      match collect_arr r1 (rev (s_calls s)) [] with
+      | Some l => match l with
+                  | [] => if first_is_null data then Some (JNull, p, Some EInvalidArray) else Some (JArr l, p, None)
+                  | _ :: _ => Some (JArr l, p, None)
+                  end
+      | None => None
+      end
+    | _ => None
+    end =
+    match handleArrayValues_m md mArr' data (fun calls => match calls with c :: _ => answer (r1' c) | [] => answer None end) [] with
+    | MDone p (Some e) _ => Some (JNull, p, Some e)
+    | MDone p None s =>
+      match collect_arr r1' (rev (s_calls s)) [] with
+      | Some l => match l with
+                  | [] => if first_is_null data then Some (JNull, p, Some EInvalidArray) else Some (JArr l, p, None)
+                  | _ :: _ => Some (JArr l, p, None)
+                  end
+      | None => None
+      end
+    | _ => None
+    end.
+  Proof.
+    intros data r1 r1' L R1. unfold handleArrayValues_m. rewrite !prun_c_eq.
+    set (h := fun calls : list call => match calls with c :: _ => answer (r1 c) | [] => answer None end).
+    set (h' := fun calls : list call => match calls with c :: _ => answer (r1' c) | [] => answer None end).
+    assert (HE : forall L0, Forall (okc data) L0 -> h L0 = h' L0).
+    { intros [|c L0] F; [reflexivity|]. unfold h, h'. rewrite R1. reflexivity. }
+    pose proof (handle_congr mArr mArr' SA data h h' L HE) as HC.
+    destruct (prun md mArr data h [] []) as [p e s|k|], (prun md mArr' data h' [] []) as [p' e' s'|k'|];
+      try contradiction; try reflexivity.
+    destruct HC as (-> & -> & C & F). cbn [of_outcome]. destruct e'; [reflexivity|]. rewrite <- C.
+    rewrite (collect_arr_congr r1 r1' (rev (s_calls s)) []); [reflexivity|].
+    intros c IN. apply R1.
+  Qed.
+
   Theorem read_congr : forall f depth data, len data <= maxint ->
     rdo f depth data = rdo' f depth data /\ rda f depth data = rda' f depth data.
   Proof.
@@ -272,45 +353,27 @@ Section Congr.
       - intros d LD. apply IH. exact LD. }
     split.
     - (* objects *)
-      cbn [read_obj]. unfold handleObjectValues_m. rewrite !prun_c_eq.
-      set (r1 := fun c : call => match key_of md mUnescape (c_key c) with
-                                 | inl (Some _) => ValueReader.member md vr mNull mBool mAppend rf (rdo f (depth + 1)) (rda f (depth + 1)) depth (skipn (Z.to_nat (c_p c)) data)
-                                 | inl None => Some (JNull, 0, Some EInvalidString)
-                                 | inr _ => None
-                                 end).
-      set (r1' := fun c : call => match key_of md mUnescape' (c_key c) with
-                                  | inl (Some _) => ValueReader.member md vr mNull' mBool' mAppend' rf (rdo' f (depth + 1)) (rda' f (depth + 1)) depth (skipn (Z.to_nat (c_p c)) data)
-                                  | inl None => Some (JNull, 0, Some EInvalidString)
-                                  | inr _ => None
-                                  end).
-      assert (R1 : forall c, okc data c -> r1 c = r1' c /\ key_of md mUnescape (c_key c) = key_of md mUnescape' (c_key c)).
-      { intros c OK. assert (KE : key_of md mUnescape (c_key c) = key_of md mUnescape' (c_key c))
-          by (apply key_of_congr; unfold okc in OK; lia).
-        split; [|exact KE]. unfold r1, r1'. rewrite <- KE, MEM. reflexivity. }
-      set (h := fun calls : list call => match calls with c :: _ => answer (r1 c) | [] => answer None end).
-      set (h' := fun calls : list call => match calls with c :: _ => answer (r1' c) | [] => answer None end).
-      assert (HE : forall L0, Forall (okc data) L0 -> h L0 = h' L0).
-      { intros [|c L0] F; [reflexivity|]. inversion F; subst. unfold h, h'. rewrite (proj1 (R1 c H1)). reflexivity. }
-      pose proof (handle_congr mObj mObj' SO data h h' L HE) as HC.
-      destruct (prun md mObj data h [] []) as [p e s|k|], (prun md mObj' data h' [] []) as [p' e' s'|k'|];
-        try contradiction; try reflexivity.
-      destruct HC as (-> & -> & C & F). cbn [of_outcome]. destruct e'; [reflexivity|]. rewrite <- C.
-      rewrite (collect_obj_congr r1 r1' (rev (s_calls s)) []); [reflexivity|].
-      intros c IN. apply R1. rewrite Forall_forall in F. apply F. apply in_rev. exact IN.
+      cbn [read_obj].
+      apply (obj_level_congr data
+               (fun c : call => match key_of md mUnescape (c_key c) with
+                                | inl (Some _) => ValueReader.member md vr mNull mBool mAppend rf (rdo f (depth + 1)) (rda f (depth + 1)) depth (skipn (Z.to_nat (c_p c)) data)
+                                | inl None => Some (JNull, 0, Some EInvalidString)
+                                | inr _ => None
+                                end)
+               (fun c : call => match key_of md mUnescape' (c_key c) with
+                                | inl (Some _) => ValueReader.member md vr mNull' mBool' mAppend' rf (rdo' f (depth + 1)) (rda' f (depth + 1)) depth (skipn (Z.to_nat (c_p c)) data)
+                                | inl None => Some (JNull, 0, Some EInvalidString)
+                                | inr _ => None
+                                end) L).
+      intros c OK. assert (KE : key_of md mUnescape (c_key c) = key_of md mUnescape' (c_key c))
+        by (apply key_of_congr; unfold okc in OK; lia).
+      split; [|exact KE]. rewrite <- KE, MEM. reflexivity.
     - (* arrays *)
-      cbn [read_arr]. unfold handleArrayValues_m. rewrite !prun_c_eq.
-      set (r1 := fun c : call => ValueReader.member md vr mNull mBool mAppend rf (rdo f (depth + 1)) (rda f (depth + 1)) depth (skipn (Z.to_nat (c_p c)) data)).
-      set (r1' := fun c : call => ValueReader.member md vr mNull' mBool' mAppend' rf (rdo' f (depth + 1)) (rda' f (depth + 1)) depth (skipn (Z.to_nat (c_p c)) data)).
-      set (h := fun calls : list call => match calls with c :: _ => answer (r1 c) | [] => answer None end).
-      set (h' := fun calls : list call => match calls with c :: _ => answer (r1' c) | [] => answer None end).
-      assert (HE : forall L0, Forall (okc data) L0 -> h L0 = h' L0).
-      { intros [|c L0] F; [reflexivity|]. unfold h, h', r1, r1'. rewrite MEM. reflexivity. }
-      pose proof (handle_congr mArr mArr' SA data h h' L HE) as HC.
-      destruct (prun md mArr data h [] []) as [p e s|k|], (prun md mArr' data h' [] []) as [p' e' s'|k'|];
-        try contradiction; try reflexivity.
-      destruct HC as (-> & -> & C & F). cbn [of_outcome]. destruct e'; [reflexivity|]. rewrite <- C.
-      rewrite (collect_arr_congr r1 r1' (rev (s_calls s)) []); [reflexivity|].
-      intros c IN. apply MEM.
+      cbn [read_arr].
+      apply (arr_level_congr data
+               (fun c : call => ValueReader.member md vr mNull mBool mAppend rf (rdo f (depth + 1)) (rda f (depth + 1)) depth (skipn (Z.to_nat (c_p c)) data))
+               (fun c : call => ValueReader.member md vr mNull' mBool' mAppend' rf (rdo' f (depth + 1)) (rda' f (depth + 1)) depth (skipn (Z.to_nat (c_p c)) data)) L).
+      exact MEM.
   Qed.
 
   (** ReadValue / ReadObject / ReadArray depend on the six machines only through the observations of
